@@ -290,6 +290,8 @@ fn do_init(it: &mut Interp) -> String {
     };
     let r = (|| {
         set("plan", &it.cfg.plan)?;
+        // deterministic metadata addresses (same constant as the unit components)
+        set("side_metadata_base_address", &vvm::SIDE_METADATA_BASE.to_string())?;
         set("gc_trigger", &format!("FixedHeapSize:{}", it.cfg.heap))?;
         set("threads", &format!("{}", it.cfg.workers))?;
         if it.cfg.stress != 0 {
@@ -457,7 +459,7 @@ fn do_events() -> String {
     let mut s = String::with_capacity(evs.len() * 24 + 8);
     s.push_str("ev");
     for e in evs {
-        s.push_str(&format!(" {}:{}:{}:{:x}:{:x}", e.seq, e.tid, e.kind, e.a, e.b));
+        s.push_str(&format!(" {}:{}:{}:{}:{}", e.seq, e.tid, e.kind, e.a, e.b));
     }
     if vg::dropped() > 0 {
         s.push_str(&format!(" # dropped {}", vg::dropped()));
@@ -592,7 +594,13 @@ fn exec(it: &mut Interp, t: &[&str]) -> Result<String, String> {
             let dst = it.id_or_null(t[4])?;
             let slot = SimpleSlot::from_address(unsafe { Address::from_usize(obj::slot(src, f)) });
             let srcref = to_ref(src);
-            if dst != 0 {
+            if it.cfg.plan == "ConcurrentImmix" {
+                // DEVIATION: SATBBarrier::object_reference_write_post is `unimplemented!()` in
+                // mmtk-core (barriers.rs), so the subsuming barrier panics; use pre-barrier + store.
+                let tgt = ObjectReference::from_raw_address(unsafe { Address::from_usize(dst) });
+                mm::object_reference_write_pre(mu, srcref, slot, tgt);
+                obj::wr::<usize>(obj::slot(src, f), dst);
+            } else if dst != 0 {
                 #[allow(deprecated)]
                 mm::object_reference_write(mu, srcref, slot, to_ref(dst));
             } else {
@@ -649,7 +657,7 @@ fn exec(it: &mut Interp, t: &[&str]) -> Result<String, String> {
         )),
         "pin" | "unpin" | "ispinned" => {
             need(1)?;
-            #[cfg(has_pinning)]
+            #[cfg(feature = "has_pinning")]
             {
                 let r = it.lookup(unum(t[1]) as u32).ok_or("err unknown-id")?;
                 let o = to_ref(r);
@@ -663,7 +671,7 @@ fn exec(it: &mut Interp, t: &[&str]) -> Result<String, String> {
                     format!("{b}")
                 }))
             }
-            #[cfg(not(has_pinning))]
+            #[cfg(not(feature = "has_pinning"))]
             {
                 Ok("unsupported".into())
             }
@@ -950,6 +958,7 @@ fn exec(it: &mut Interp, t: &[&str]) -> Result<String, String> {
 
 fn main() {
     install_panic_hook();
+    vg::set_tid(0);
     let t0 = std::time::Instant::now();
     start_watchdog(t0);
     let mut it = Interp {
